@@ -65,7 +65,7 @@ def build(chk, sc, cfgseed, axes, ext0=None, scale=None):
         return np.broadcast_to(base[tuple(sl)], shape).copy()
     flds = lattice.Fields(lat, cfgseed, payload="tame", special={2: affine, 3: const})
     ap = lat.ap("A", FIELDS, files_of=lambda lv, b: rng.randint(1, 2), shuffle=lambda lv, f, v: rng.sample(v, len(v)))
-    d = os.path.join(chk.tmp(), "plt00300")
+    d = os.path.join(chk.tmp_reuse(), "plt00300")
     os.makedirs(os.path.dirname(d))
     gamma.write_plotfile(d, ap, cfg_, values=flds.values)
     return d, cfg_, lat, flds
